@@ -20,8 +20,12 @@ class _Warned(logging.Handler):
     def emit(self, record):
         self.msgs.append(record.getMessage())
 
+VALUES_B = {"alpha": -2.0, "beta": 4.5, "gamma": 1.0, "delta": 0.5}
+
 def run(case):
-    """case: (tree, [sources], start, dt) -> None | text"""
+    """case: (tree, [sources], start, dt[, 'modules']) -> None | text"""
+    if len(case) == 5 and case[4] == "modules":
+        return run_modules(case)
     tree, sources, start, dt = case
     variables = [dict(kind="aux", name=DEFINED[n], eqn=repr(v)) for n, v in VALUES.items()]
     for i, src in enumerate(sources):
@@ -55,6 +59,45 @@ def run(case):
         return None
     finally:
         root.removeHandler(h)
+        if c is not None:
+            c.cleanup()
+
+def run_modules(case):
+    """the same equation texts in two modules over module-local variables with different values: each module's
+    equations must be computed from its own variables"""
+    tree, sources, start, dt, _ = case
+    mods = {}
+    for mname, vals in (("Plant A", VALUES), ("Plant B", VALUES_B)):
+        vs = [dict(kind="aux", name=DEFINED[n], eqn=repr(v)) for n, v in vals.items()]
+        for i, src in enumerate(sources):
+            vs.append(dict(kind="aux", name="Result %d" % i, eqn=src))
+        mods[mname] = vs
+    c = None
+    try:
+        try:
+            c = Compiled(xmile("m", start, start + 4 * dt, dt, [dict(kind="aux", name="total", eqn="Plant_A.Result_0 + Plant_B.Result_0")], modules=mods))
+            sim = c.model()
+        except BaseException:
+            return None
+        for t in (start, start + dt):
+            for mname, pre, vals in (("Plant A", "plantA", VALUES), ("Plant B", "plantB", VALUES_B)):
+                env = dict(vals, TIME=t, DT=dt, STARTTIME=start)
+                try:
+                    want = T.eval_num(tree, env)
+                    if isinstance(want, complex) or want != want or abs(want) == float("inf"):
+                        continue
+                except (ZeroDivisionError, ValueError, OverflowError, TypeError):
+                    continue
+                for i, src in enumerate(sources):
+                    try:
+                        got = float(sim.equation("%s.result%d" % (pre, i), t))
+                    except BaseException:
+                        continue
+                    if got != got or abs(got - want) > 1e-9 * max(1.0, abs(want)):
+                        return ("module %r: XMILE equation %r evaluates to %r at t=%r, with the module's own variables %r the XMILE value is %r (the other module holds %r)"
+                                % (mname, src, got, t, vals, want, VALUES_B if vals is VALUES else VALUES))
+        return None
+    finally:
         if c is not None:
             c.cleanup()
 
